@@ -4,7 +4,7 @@ import json
 import os
 
 ROOT = "/verif"
-HOOK_COMMITS = ["9464261", "db74668", "82c77a2", "4c6d354", "d980f79", "b9c8edd", "6f90701", "cd8a56a"]
+HOOK_COMMITS = ["9464261", "db74668", "82c77a2", "4c6d354", "d980f79", "b9c8edd", "6f90701", "cd8a56a", "63dd92f"]
 
 TB = ("Trusted: Coq 8.16.1 kernel (+vm_compute for evaluating the model on correspondence cases; no native_compute); "
       "the hand-written Gallina model, tied to /repo only by this check's correspondence run against the binary built from /repo's working tree with --cfg vicut_verif; "
